@@ -218,6 +218,10 @@ func replayBatchFromChan(clck clock.Clock, batches <-chan edge.BufferedBatchMess
 				points[i].SetTime(points[i].Time().Add(diff).UTC())
 			}
 			lastTime = points[len(points)-1].Time()
+			if !b.Begin().Time().IsZero() {
+				// Shift the end time of the batch together with its points.
+				b.Begin().SetTime(b.Begin().Time().Add(diff).UTC())
+			}
 		} else {
 			lastTime = points[len(points)-1].Time().Add(diff).UTC()
 		}
